@@ -308,22 +308,23 @@ Theorem drift_bound_gen (N C fst0 : nat) (ops : list (op KG)) :
   (1 <= N)%nat -> (fst0 < N)%nat -> Forall (opK_ok KG C) ops ->
   sums_ok KG is_finite (new_stateK KG N C fst0) ops = true ->
   exists st' outs, run KG (new_stateK KG N C fst0) ops = Ok (st', outs) /\
-    length (square_sum KG st') = C /\
+    flen (window KG st') = N /\ length (square_sum KG st') = C /\
     forall c, (c < C)%nat ->
       let e := e_after prec emax N (chan_evs KG c ops) in
       F2R (esum e) = sum_sq c (last_n N C (feed [] (opsR ops))) /\
-      is_finite (nth c (square_sum KG st') z0) = true /\
+      is_finite (nth c (square_sum KG st') z0) = true /\ 0 <= B2R (nth c (square_sum KG st') z0) /\
       Rabs (B2R (nth c (square_sum KG st') z0) - F2R (esum e)) <= F2R (eerr e).
 Proof.
   intros HN Hf Hops Hfin.
   destruct (SInv_new KG N C fst0 Hf) as [I0 P0].
   destruct (run_proj KG is_finite N C ops _ I0 Hops) as (st' & outs & E & I' & P & F).
-  exists st', outs. split; [exact E|]. split; [destruct I' as (_ & _ & _ & _ & L); exact L|].
+  exists st', outs. split; [exact E|].
+  split; [destruct I' as (_ & _ & L & _); exact L|]. split; [destruct I' as (_ & _ & _ & _ & L); exact L|].
   intros c Hc. cbv zeta. unfold e_after.
   specialize (P c Hc). specialize (F Hfin c Hc). rewrite P0 in P, F.
-  pose proof (srun_rel N HN _ _ _ (Rel_reset N) F) as (_ & _ & Fs & _ & HS & HE).
-  rewrite <- P in Fs, HE. unfold proj in Fs, HE. cbn [snd] in Fs, HE.
-  split; [|split; [exact Fs|exact HE]].
+  pose proof (srun_rel N HN _ _ _ (Rel_reset N) F) as (_ & _ & Fs & Ps & HS & HE).
+  rewrite <- P in Fs, Ps, HE. unfold proj in Fs, Ps, HE. cbn [snd] in Fs, Ps, HE.
+  split; [|split; [exact Fs|split; [exact Ps|exact HE]]].
   rewrite HS. apply rsum_sum_sq. unfold opsR. apply (e_win_exact N C c HN ops [] (e_init N)).
   unfold e_init. cbn [ewin]. rewrite last_n_nil. unfold sqs.
   rewrite !RmsProofs.map_repeat, chan_zero_frame, F2R_d0. f_equal. ring.
@@ -334,11 +335,11 @@ Theorem drift_bound_steps (N C fst0 : nat) (ops : list (op KG)) (k : nat) :
   (1 <= N)%nat -> (fst0 < N)%nat -> Forall (opK_ok KG C) ops ->
   sums_ok KG is_finite (new_stateK KG N C fst0) ops = true ->
   exists st_k outs, run KG (new_stateK KG N C fst0) (firstn k ops) = Ok (st_k, outs) /\
-    length (square_sum KG st_k) = C /\
+    flen (window KG st_k) = N /\ length (square_sum KG st_k) = C /\
     forall c, (c < C)%nat ->
       let e := e_after prec emax N (chan_evs KG c (firstn k ops)) in
       F2R (esum e) = sum_sq c (last_n N C (feed [] (opsR (firstn k ops)))) /\
-      is_finite (nth c (square_sum KG st_k) z0) = true /\
+      is_finite (nth c (square_sum KG st_k) z0) = true /\ 0 <= B2R (nth c (square_sum KG st_k) z0) /\
       Rabs (B2R (nth c (square_sum KG st_k) z0) - F2R (esum e)) <= F2R (eerr e).
 Proof.
   intros HN Hf Hops Hfin. apply drift_bound_gen; auto.
